@@ -27,7 +27,8 @@ def genL : Nat := SwV.Gen.C06.ErasureCodingLargeBlockSize.toNat
 def genS : Nat := SwV.Gen.C06.ErasureCodingSmallBlockSize.toNat
 /-- operator of `for remainingSize > largeBlockSize*DataShardsCount` (encodeDatFile) -/
 def genEncStrict : Option Bool := guardStrictOfText SwV.Gen.C06.encLargeLoopCond
-/-- operator of `for datFileSize >= DataShardsCount*ErasureCodingLargeBlockSize` (WriteDatFile) -/
+/-- operator of `for datFileSize > DataShardsCount*ErasureCodingLargeBlockSize` (WriteDatFile; it was `>=`
+    before the repair, /repo commit e82dce52) -/
 def genDecStrict : Option Bool := guardStrictOfText SwV.Gen.C06.decLargeLoopCond
 
 /-! ### bridges (T1) -/
@@ -46,9 +47,14 @@ theorem bridge_enc_guard :
     SwV.Gen.C06.encLargeLoopCond = "remainingSize > largeBlockSize*DataShardsCount" ∧
     SwV.Gen.C06.encSmallLoopCond = "remainingSize > 0" ∧ genEncStrict = some true := by decide
 
+/-- the decoder's guards as repaired by /repo commit e82dce52 (`fix: WriteDatFile copies a row of large blocks
+    only while datFileSize > …`): re-introducing `>=` breaks this obligation and `bridge_guards_equal` -/
 theorem bridge_dec_guard :
-    SwV.Gen.C06.decLargeLoopCond = "datFileSize >= DataShardsCount*ErasureCodingLargeBlockSize" ∧
-    SwV.Gen.C06.decSmallLoopCond = "datFileSize > 0" ∧ genDecStrict = some false := by decide
+    SwV.Gen.C06.decLargeLoopCond = "datFileSize > DataShardsCount*ErasureCodingLargeBlockSize" ∧
+    SwV.Gen.C06.decSmallLoopCond = "datFileSize > 0" ∧ genDecStrict = some true := by decide
+
+/-- encoder and decoder read the SAME comparison operator in their large-row loops (whatever it is) -/
+theorem bridge_guards_equal : genEncStrict = genDecStrict ∧ genEncStrict.isSome = true := by decide
 
 /-- LocateEcShardNeedle calls LocateData with the production block sizes and `10 * shard size` -/
 theorem bridge_locate_call :
@@ -66,7 +72,7 @@ theorem bridge_locate_exprs :
 theorem bridge_source_pins :
     SwV.Gen.C06.src_LocateData = "04cac66f7204e4cb" ∧ SwV.Gen.C06.src_encodeDatFile = "98a46bfab029a1d7" ∧
     SwV.Gen.C06.src_encodeData = "1ca502f75d4a3392" ∧ SwV.Gen.C06.src_encodeDataOneBatch = "86174d22bcec4731" ∧
-    SwV.Gen.C06.src_WriteDatFile = "f66c1cc77b0ef747" ∧ SwV.Gen.C06.src_rebuildEcFiles = "ebc0ceb2eb561136" := by decide
+    SwV.Gen.C06.src_WriteDatFile = "bf3f735eeab11244" ∧ SwV.Gen.C06.src_rebuildEcFiles = "ebc0ceb2eb561136" := by decide
 
 /-! ### the EC read path returns exactly the stored bytes
 
@@ -138,9 +144,13 @@ theorem ambiguous_window_production :
 
 FULL-STRENGTH statement (DESIGN §5 `ec_decode_exact`):
   ∀ k L S D, decode k L S <decoder guard> (layout k L S <encoder guard> D) |D| = some D
-is FALSE for the operators the code uses (encoder `>`, decoder `>=`) when `|D|` is a positive
-multiple of `k·L` (finding WriteDatFile/large-row-guard-differs-from-encoder):
-see `ec_decode_exact_false_witness`. -/
+now HOLDS of the operators the code uses (`ec_decode_exact` below): both loops read `>`.
+
+History (finding WriteDatFile/large-row-guard-differs-from-encoder, FIXED by /repo commit e82dce52): the
+decoder used `>=` while the encoder used `>`, and the statement was false when `|D|` is a positive multiple of
+`k·L`.  `ec_decode_exact_partial`, `large_rows_agree` and `ec_decode_exact_false_witness` are kept as theorems
+about the OLD operator pair (they are parametric in the operators, so they still type-check): they document
+what the repair removed and what a patch that re-introduces `>=` would bring back. -/
 
 /-- with the same guard operator on both sides the round trip is exact for EVERY file -/
 theorem ec_decode_exact_same_guard (k L S : Nat) (strict : Bool) (D : List Nat)
@@ -162,8 +172,8 @@ theorem large_rows_agree (k L n : Nat) (hkL : 0 < k * L) (hx : ¬ (0 < n ∧ n %
     have : n - 1 = n / (k * L) * (k * L) + (n % (k * L) - 1) := by omega
     rw [this, (div_mod_block (k * L) (n / (k * L)) (n % (k * L) - 1) (by omega)).1]
 
-/-- the code's operators (encoder strict, decoder inclusive): exact for every file whose size is not a
-    positive multiple of `k·L` -/
+/-- the operators of the code BEFORE the repair (encoder strict, decoder inclusive): exact for every file whose
+    size is not a positive multiple of `k·L` -/
 theorem ec_decode_exact_partial (k L S : Nat) (D : List Nat) (hk : 0 < k) (hL : 0 < L) (hS : 0 < S)
     (hx : ¬ (0 < D.length ∧ D.length % (k * L) = 0)) :
     decode k L S false (layout k L S true D) D.length = some D :=
@@ -171,9 +181,11 @@ theorem ec_decode_exact_partial (k L S : Nat) (D : List Nat) (hk : 0 < k) (hL : 
 
 example : ¬ (0 < (List.replicate 7 1).length ∧ (List.replicate 7 1).length % (2 * 4) = 0) := by decide
 
-/-- the excluded sizes really fail: `k = 2, L = 4, S = 1`, an 8-byte file -/
+/-- with the pre-repair operator pair the excluded sizes really fail: `k = 2, L = 4, S = 1`, an 8-byte file
+    (and with the repaired pair the same file decodes exactly) -/
 theorem ec_decode_exact_false_witness :
-    decode 2 4 1 false (layout 2 4 1 true [1, 2, 3, 4, 5, 6, 7, 8]) 8 = some [1, 3, 5, 7, 2, 4, 6, 8] := by decide
+    decode 2 4 1 false (layout 2 4 1 true [1, 2, 3, 4, 5, 6, 7, 8]) 8 = some [1, 3, 5, 7, 2, 4, 6, 8] ∧
+    decode 2 4 1 true (layout 2 4 1 true [1, 2, 3, 4, 5, 6, 7, 8]) 8 = some [1, 2, 3, 4, 5, 6, 7, 8] := by decide
 
 /-- production instance, parameterised by the operators read from the source: whatever the two
     extracted operators are, decoding is exact when they coincide, and otherwise for every size that
@@ -190,8 +202,27 @@ theorem ec_decode_exact_production (es ds : Bool) (he : genEncStrict = some es) 
   · have := large_rows_agree genK genL D.length (Nat.mul_pos hk hL) h
     cases es <;> cases ds <;> simp_all
 
-/-- the operators in the source today do differ, so the exclusion is not vacuous -/
-theorem guards_differ_today : genEncStrict = some true ∧ genDecStrict = some false := by decide
+/-- the operators in the source today are both `>` (before /repo commit e82dce52 this obligation read
+    `genDecStrict = some false`, under the name `guards_differ_today`) -/
+theorem guards_equal_today : genEncStrict = some true ∧ genDecStrict = some true := by decide
+
+/-- FULL STRENGTH, no hypothesis on the file: at the constants and the two operators regenerated from the source,
+    decoding the data shards of ANY data file `D` with its original size returns `D`.  `es`/`ds` are whatever the
+    extractor read from encodeDatFile/WriteDatFile; `bridge_guards_equal` makes them the same operator and
+    `ec_decode_exact_same_guard` does the rest -/
+theorem ec_decode_exact (es ds : Bool) (he : genEncStrict = some es) (hd : genDecStrict = some ds) (D : List Nat) :
+    decode genK genL genS ds (layout genK genL genS es D) D.length = some D := by
+  have h : es = ds := by
+    have := bridge_guards_equal.1
+    rw [he, hd] at this
+    exact Option.some.inj this
+  subst h
+  exact ec_decode_exact_same_guard genK genL genS es D (by decide) (by decide) (by decide)
+
+/-- the hypotheses of `ec_decode_exact` are satisfied by the extracted operators, including on the sizes the
+    pre-repair code got wrong (`|D| = 10·genL`: same number of large rows on both sides) -/
+example : genEncStrict = some true ∧ genDecStrict = some true ∧
+    nLargeRows genK genL true (10 * genL) = 0 ∧ nLargeRows genK genL false (10 * genL) = 1 := by decide
 
 
 /-! ### rebuilding lost shards (relative to the MDS assumption on Reed–Solomon, see prop.json trusted_base) -/
@@ -247,6 +278,20 @@ theorem ec_decode_exact_encoded_partial (c : EncCfg) (ds : Bool) (D : List Nat)
   · rw [h]
   · have := large_rows_agree c.k c.L D.length (Nat.mul_pos hk hL) h
     cases hs : c.strict <;> cases ds <;> simp_all
+
+/-- FULL STRENGTH over the shards the ENCODER MODEL writes with the production call
+    `generateEcFiles(base, 256*1024, ErasureCodingLargeBlockSize, ErasureCodingSmallBlockSize)` and the extracted
+    operators: the decoder returns the data file, for every data file -/
+theorem ec_decode_exact_encoded (es ds : Bool) (he : genEncStrict = some es) (hd : genDecStrict = some ds) (D : List Nat) :
+    decode genK genL genS ds ((List.range genK).map (dataShard ⟨genK, genL, genS, 256 * 1024, es⟩ D)) D.length = some D := by
+  have h := ec_decode_exact_encoded_partial ⟨genK, genL, genS, 256 * 1024, es⟩ ds D (show 0 < genK by decide)
+    (show 0 < genL by decide) (show 0 < genS by decide) (show 0 < 256 * 1024 by decide)
+    (show (256 * 1024) ∣ genL by decide) (show (256 * 1024) ∣ genS by decide)
+    (Or.inl (by
+      have := bridge_guards_equal.1
+      rw [he, hd] at this
+      exact Option.some.inj this))
+  exact h
 
 /-- the production call `generateEcFiles(base, 256*1024, ErasureCodingLargeBlockSize, ErasureCodingSmallBlockSize)`
     satisfies the hypotheses of `enc_layout` -/
